@@ -220,26 +220,62 @@ def run(ctx, chk):
                 inits[n["pat"]["name"]] = n["init"]
         walk(ua["ast"], loc)
 
-        def flag_of(e):
-            """Flags variant an expression reads: get_flag_state(vm.arch.flag, Flags::X) [as T]"""
-            while e.get("k") in ("cast", "paren"):
-                e = e["e"]
-            if e.get("k") == "path" and len(e["segs"]) == 1 and e["segs"][0] in inits:
-                return flag_of(inits[e["segs"][0]])
+        def resolve(e, env, depth=0):
+            """see through casts, parentheses, borrows, single-expression blocks, and names bound by `let` or by a
+            closure parameter (env)"""
+            while depth < 12:
+                depth += 1
+                k = e.get("k")
+                if k in ("cast", "paren"):
+                    e = e["e"]
+                elif k == "ref":
+                    e = e["e"]
+                elif k == "un" and e.get("op") == "*":
+                    e = e["e"]
+                elif k == "block" and len(e.get("stmts", [])) == 1 and e["stmts"][0].get("k") == "expr":
+                    e = e["stmts"][0]["e"]
+                elif k == "path" and len(e["segs"]) == 1 and e["segs"][0] in env:
+                    e = env[e["segs"][0]]
+                elif k == "path" and len(e["segs"]) == 1 and e["segs"][0] in inits:
+                    e = inits[e["segs"][0]]
+                else:
+                    break
+            return e
+
+        def flag_of(e, env=None, depth=0):
+            """Flags variant an expression reads: get_flag_state(vm.arch.flag, Flags::X) [as T], written in place, through
+            `let` names, or through a local closure applied to the variant"""
+            env = env or {}
+            if depth > 6:
+                return None
+            e = resolve(e, env)
             if e.get("k") == "call" and e["f"].get("k") == "path" and e["f"]["segs"][-1] == "get_flag_state" and len(e["args"]) == 2:
-                src = field_path(e["args"][0])
-                fl = e["args"][1]
+                src = field_path(resolve(e["args"][0], env))
+                fl = resolve(e["args"][1], env)
                 if fl.get("k") == "path" and len(fl["segs"]) == 2 and fl["segs"][0] == "Flags":
                     return fl["segs"][1], src
+                return None
+            if e.get("k") == "call" and e["f"].get("k") == "path" and len(e["f"]["segs"]) == 1:
+                c = resolve(e["f"], env)
+                if c.get("k") == "closure" and len(c.get("params") or []) == len(e["args"]):
+                    env2 = dict(env)
+                    for pat, a in zip(c["params"], e["args"]):
+                        if pat.get("k") == "ident":
+                            env2[pat["name"]] = resolve(a, env)
+                        else:
+                            return None
+                    return flag_of(c["body"], env2, depth + 1)
             return None
 
         seen = []
+        flags_undecided = []
         for mc in macros(ua["ast"]):
             if not mc["args"] or mc["args"][0].get("k") != "lit":
                 continue
             pairs, tail = split_literal(mc["args"][0]["v"])
             args = mc["args"][1:]
             if len(pairs) != len(args):
+                flags_undecided.append("?")
                 chk.undecided_("C17.R1", f"print flags@{mc.get('line')}", "placeholder/argument count differs")
                 continue
             for (text, spec), a in zip(pairs, args):
@@ -247,6 +283,7 @@ def run(ctx, chk):
                 fo = flag_of(a)
                 if fo is None:
                     chk.undecided_("C17.R1", f"flag:{lab}", "argument not traced to get_flag_state")
+                    flags_undecided.append(lab)
                     continue
                 variant, src = fo
                 seen.append(variant)
@@ -261,8 +298,9 @@ def run(ctx, chk):
                     chk.violation("C17.R1", "print flags", f"format-{lab}-{spec}", f"{lab} is printed with '{{{spec}}}' instead of a plain 0/1", where)
                 else:
                     chk.ok("C17.R1", f"flag:{lab}", f"{lab} <- get_flag_state(vm.arch.flag, Flags::{variant}) as integer")
+        untraced = any(u.get("rule") == "C17.R1" and str(u.get("unit", "")).startswith("flag:") for u in getattr(chk, "undecided", []) if isinstance(u, dict))
         for lab, v in FLAG_LABELS.items():
-            if v not in seen:
+            if v not in seen and not untraced and not flags_undecided:
                 chk.violation("C17.R1", "print flags", f"missing-{lab}", f"`print flags` does not show {lab}", where)
         # the variable must be an integer cast of the bool (prints 0/1, not true/false)
         for name, init in inits.items():
